@@ -629,15 +629,54 @@ func c12Records(r *kernel.Run) {
 			set = append(set, m)
 		}
 		bad := tp.Draw(len(set))
-		how := Pick2(tp, "sealed with a different wrapper", "carrying the sealed server encryption key of another record")
+		how := Pick2(tp, "sealed with a different wrapper", "carrying the sealed server encryption key of another record", "stored before the wrapper was introduced")
 		for i, m := range set {
 			o := o1
 			if i == bad && how == "sealed with a different wrapper" {
 				o = o2
 			}
+			if i == bad && how == "stored before the wrapper was introduced" {
+				o = nil // an unsealed record (deliberately loadable) next to sealed ones
+			}
 			if err := proto.Clone(m).(*types.NodeInformation).Store(w.Ctx, w.Storage, o...); err != nil {
 				r.Violate("roundtrip", "store-failed/"+kname, "%v", err)
 			}
+		}
+		if how == "stored before the wrapper was introduced" {
+			// whichever position the unsealed record has in the lookup result, every record comes back as it was stored
+			pos := tp.Draw(3)
+			w.St.NodeOrder = func(ids []string) []string {
+				var first, rest []string
+				for _, id := range ids {
+					if id == set[bad].Id {
+						first = append(first, id)
+					} else {
+						rest = append(rest, id)
+					}
+				}
+				switch pos {
+				case 0:
+					return append(first, rest...)
+				case 1:
+					return append(rest, first...)
+				}
+				return ids
+			}
+			gs, err := types.LoadNodeInformationSetByNodeId(w.Ctx, nl, nid, o1...)
+			w.St.NodeOrder = nil
+			if err != nil || len(gs.GetNodes()) != len(set) {
+				r.Violate("roundtrip", "roundtrip-differs/NodeInformationSet", "a node's records, one of them stored before the wrapper was introduced (position %d): err=%v got %d of %d", pos, err, len(gs.GetNodes()), len(set))
+			}
+			for _, g := range gs.GetNodes() {
+				for _, m := range set {
+					if m.Id == g.Id && !bytes.Equal(m.ServerEncryptionPrivateKeyBytes, g.ServerEncryptionPrivateKeyBytes) {
+						r.Violate("roundtrip", "roundtrip-differs/NodeInformationSet", "record %s of a mixed sealed/unsealed set came back with a server key that is not the stored one (unsealed record at position %d): still sealed?", g.Id, pos)
+					}
+				}
+			}
+			r.Count("ops.load_set_by_node_id", 1)
+			r.FP(kname, opt, backend, how, bad, len(set), pos)
+			break
 		}
 		gotSet, err := types.LoadNodeInformationSetByNodeId(w.Ctx, nl, nid, o1...)
 		if how == "sealed with a different wrapper" {
